@@ -139,9 +139,10 @@ theorem mutate_only_target (w : World) (k : Nat) (c : Int) :
 /-! ## slices touch only their own entries
 
 Proved for slices taken DIRECTLY of a base signal that holds a whole array (`sig[spec]`, any spec kind: basic slice, tuple
-of slices on an n-d array, integer array — view path and copy-and-write-back path), for every operation of `SignalSlice`.
-`pos` is the index set the model computes for the spec (`selIdx`); `Sel` records `selIdx shape spec = ok (pos, _)` and
-that the positions are inside the buffer (numpy's contract for index sets, compared exhaustively by the `c18.sel` stream).
+of slices on an n-d array, integer array, mixed tuple of slices / integers / one integer array at any axis — view path
+and copy-and-write-back path), for every operation of `SignalSlice`.
+`pos` is the index set the model computes for the spec (`selIdx`); `Sel` records `selIdx shape spec = ok (pos, shp')`, that the
+selection keeps at least one axis (`shp' ≠ []`; otherwise numpy hands out a scalar) and that the positions are inside the buffer (numpy's contract for index sets, compared exhaustively by the `c18.sel` stream).
 
 Full statement (not proved): the same for `SigRef`s of arbitrary nesting depth, `pos` being the composed index set.
 Missing: the lemma that re-evaluating a nested getter after allocations returns the same view (induction over `SigRef`). -/
@@ -178,7 +179,16 @@ theorem slice_add_only_idx_partial (w : World) (i r : Nat) (sp : SliceSpec) (pos
 
 example : Sel ⟨⟨fun _ => ⟨false, [4], [⟨1, 0⟩, ⟨2, 0⟩, ⟨3, 0⟩, ⟨4, 0⟩]⟩, 1⟩, fun _ => ⟨.arr 0, .arr 0, false⟩, 1, []⟩ 0
     (.basic ⟨some (-1), none, some (-2)⟩) [3, 1] [2] :=
-  ⟨rfl, by decide⟩
+  ⟨rfl, by decide, by decide⟩
+
+/-- a mixed tuple `s[:, np.array([2, 0])]` on a 2×3 base: a basic slice BEFORE the integer array (copy path; the array
+    dimension stays in place) -/
+example : Sel ⟨⟨fun _ => ⟨false, [2, 3], [⟨1, 0⟩, ⟨2, 0⟩, ⟨3, 0⟩, ⟨4, 0⟩, ⟨5, 0⟩, ⟨6, 0⟩]⟩, 1⟩, fun _ => ⟨.arr 0, .arr 0, false⟩, 1, []⟩ 0
+    (.mixed [.sl ⟨none, none, none⟩] (some [2, 0]) []) [2, 0, 5, 3] [2, 2] :=
+  ⟨rfl, by decide, by decide⟩
+
+/-- non-adjacent advanced indices `s[0, :, np.array([3, 1])]` on a 2×3×4 base: the array dimension comes first -/
+example : selIdx [2, 3, 4] (.mixed [.int 0, .sl ⟨none, none, none⟩] (some [3, 1]) []) = .ok ([3, 7, 11, 1, 5, 9], [2, 3]) := rfl
 
 /-- resetting a slice clears only its own entries: the base keeps its sensitivity object, entries outside `pos` are
     unchanged and every other existing array is unchanged (any spec kind) -/
@@ -191,9 +201,9 @@ theorem slice_reset_only_idx_partial (w : World) (i r : Nat) (sp : SliceSpec) (p
   obtain ⟨h1, _, _, _, h2, h3, _, _, _⟩ := (slice_touches_only_idx_partial w i r sp pos shp' hh hs hr .none).2.2
   exact ⟨h1, h3, h2⟩
 
-/-- … and the entries inside are 0 afterwards (basic slices / tuples of slices; `hlen`, `hnd`: the index set has as many
+/-- … and the entries inside are 0 afterwards (basic slices / tuples of slices and integers, i.e. every VIEW spec; `hlen`, `hnd`: the index set has as many
     positions as the result shape says and no repeats — numpy facts about slices, checked by the `c18.sel` stream).
-    Not proved for the integer-array path (needs `intAxis` length bookkeeping); covered by the correspondence. -/
+    Not proved for the integer-array paths (`intArr`, mixed tuples with an array; needs `intAxis` length bookkeeping); covered by the correspondence. -/
 theorem slice_reset_zeroes_idx_partial (w : World) (i r : Nat) (sp : SliceSpec) (pos shp' : List Nat)
     (hh : (w.sigs i).sens = .arr r) (hs : Sel w r sp pos shp') (hv : sp.isView = true)
     (hlen : pos.length = prod shp') (hnd : pos.Nodup) :
@@ -204,16 +214,24 @@ theorem slice_reset_zeroes_idx_partial (w : World) (i r : Nat) (sp : SliceSpec) 
       (⟨w.heap.write r pos (List.replicate (prod shp') 0), w.sigs, w.nsig, w.exts⟩, none) := by
     cases sp with
     | intArr is => simp [SliceSpec.isView] at hv
+    | mixed pre arr post =>
+      cases arr with
+      | some is => simp [SliceSpec.isView] at hv
+      | none =>
+        have hm := asView_arr_sel hs
+        simp only [List.getD_eq_getElem?_getD] at hm
+        simp [resetSlice, getField, hh', getItem, PVal.asView, hs.sel, SliceSpec.isView, setSens,
+          writeField, setItem, prepSet, advShape, prepVal, PVal.src, hm, hs.nz]
     | basic s =>
       have hm := asView_arr_sel hs
       simp only [List.getD_eq_getElem?_getD] at hm
       simp [resetSlice, getField, hh', getItem, PVal.asView, hs.sel, SliceSpec.isView, setSens,
-        writeField, setItem, prepSet, prepVal, PVal.src, hm]
+        writeField, setItem, prepSet, advShape, prepVal, PVal.src, hm, hs.nz]
     | tuple ss =>
       have hm := asView_arr_sel hs
       simp only [List.getD_eq_getElem?_getD] at hm
       simp [resetSlice, getField, hh', getItem, PVal.asView, hs.sel, SliceSpec.isView, setSens,
-        writeField, setItem, prepSet, prepVal, PVal.src, hm]
+        writeField, setItem, prepSet, advShape, prepVal, PVal.src, hm, hs.nz]
   rw [e]
   refine ⟨rfl, fun j hj => ?_⟩
   obtain ⟨k, hk, rfl⟩ := List.getElem_of_mem hj
@@ -251,7 +269,7 @@ theorem slice_add_creates_zero_sens_partial (w : World) (i rs : Nat) (sp : Slice
     | _ => simp [addSlice, getField, hse', hst', initSens, mulZero, PVal.asView, setSens, w4, o, Heap.alloc]
   have h4s : (w4.sigs i).sens = .arr w.heap.next := by simp [w4, World.setSens]
   have hs4 : Sel w4 w.heap.next sp pos shp' := by
-    refine ⟨?_, ?_⟩
+    refine ⟨?_, ?_, hs.nz⟩
     · have : (w4.heap.objs w.heap.next) = o := by simp [w4, World.setSens]
       rw [this]; exact hs.sel
     · have : (w4.heap.objs w.heap.next) = o := by simp [w4, World.setSens]
